@@ -591,7 +591,7 @@ _public_ int m_mod_set_tokenbucket(m_mod_t *mod, uint32_t rate, uint64_t burst) 
     if (mod->tb.timer.ns != 0) {
         /* Our own bookkeeping must not be refused by the very bucket it is replacing (tokens get overwritten below) */
         mod->tb.tokens = UINT64_MAX;
-        m_mod_src_deregister_tmr(mod, &mod->tb.timer);
+        deregister_internal_tmr(mod, &mod->tb);
     }
     
     // Rate 0 -> disable tb
